@@ -90,6 +90,7 @@ theorem specWrite_specWrite (f : Bytes) (off : Nat) (a b : Bytes) (h : off ≤ f
 def SameLens (a b : List Seg) : Prop := a.map Seg.len = b.map Seg.len
 
 theorem SameLens.refl (a : List Seg) : SameLens a a := rfl
+theorem SameLens.symm {a b : List Seg} (h : SameLens a b) : SameLens b a := Eq.symm h
 theorem SameLens.trans {a b c : List Seg} (h1 : SameLens a b) (h2 : SameLens b c) : SameLens a c :=
   Eq.trans h1 h2
 
